@@ -22,19 +22,6 @@ struct Case {
 	src: Src,
 }
 
-/// the last tile of level z on the Hilbert curve and the first tiles of level z+1 with equal
-/// payloads (one PMTiles run over the level border, when the encoder merges runs)
-fn border_run(spec: &mut SetSpec, r: u32, w: u32, h: u32) {
-	let z = 1 + (r % 11) as u8;
-	let size = 1u32 << z;
-	spec.levels = vec![
-		LevelSpec { z, x0: size - w.min(size).min(3), y0: 0, w: w.min(size).min(3), h: h.min(size).min(2), shape: Shape::Dense, seed: r },
-		LevelSpec { z: z + 1, x0: 0, y0: 0, w: 1, h: 1 + (r >> 8) % 2, shape: Shape::Dense, seed: r },
-		LevelSpec { z: z + 1, x0: 2 + (r >> 12) % size, y0: 2 + (r >> 20) % size, w: 1 + (r >> 4) % 3, h: 1, shape: Shape::Dense, seed: r },
-	];
-	spec.pay = vt::model::Pay::Dups { variants: 1 + ((r >> 6) % 2) as u8, len: 20 + (r >> 16) % 100 };
-}
-
 /// tile sets steered towards the shapes the statement names
 fn spec_for(target: Target) -> impl Strategy<Value = SetSpec> {
 	let mut cfg = GenCfg::small(target.pairs());
@@ -68,7 +55,7 @@ fn spec_for(target: Target) -> impl Strategy<Value = SetSpec> {
 			}
 			// the last tile of level z on the Hilbert curve and the first tiles of level z+1 with equal
 			// payloads (one PMTiles run over the level border, when the encoder merges runs)
-			5 | 6 => border_run(&mut spec, r, w, h),
+			5 | 6 => gen::border_run(&mut spec, r, w, h),
 			_ => {}
 		}
 		spec
@@ -81,7 +68,7 @@ fn strategy() -> impl Strategy<Value = Case> {
 		spec_for(target).prop_map(move |spec| Leaf { spec, kind: if enc { LeafKind::Enc(target, seed) } else { LeafKind::Repo(target) } })
 	});
 	let border = (spec_for(Target::Pmtiles), any::<u32>(), any::<u32>(), 1u32..4, 1u32..3).prop_map(|(mut spec, seed, r, w, h)| {
-		border_run(&mut spec, r, w, h);
+		gen::border_run(&mut spec, r, w, h);
 		Leaf { spec, kind: LeafKind::Enc(Target::Pmtiles, seed) }
 	});
 	prop_oneof![
